@@ -1,5 +1,6 @@
-CONSTANTS NC = 2 MaxShift = 1 MaxArity = 2 MaxKeys = 2 EmitMode = "pumping"
+CONSTANTS NC = 2 MaxShift = 1 MaxArity = 2 MaxKeys = 2 EmitMode = "pumping" AllBuckets = FALSE
 SPECIFICATION Spec
 INVARIANT MinimalImpliesFunctionalAndClosed
+INVARIANT MinimizeMeetsPostconditions
 INVARIANT Emit
 CHECK_DEADLOCK FALSE
